@@ -42,8 +42,139 @@ def Typed (q : Q) : Prop :=
 
 instance (q : Q) : Decidable (Typed q) := by unfold Typed; infer_instance
 
-/-- names of the options `__str__` can express -/
-def printedNames (c : Cls) : List String := (posSpec c).map (·.name) ++ (kwSpec c).map (·.name)
+/-! ### an omitted option is at the default of ITS OWN class -/
+
+/-- `v == c` and `c == d` give `d == v` (Python `==` on literals) -/
+theorem PyVal.pyEq_chain (v c d : PyVal) (h1 : v.pyEq c = true) (h2 : c.pyEq d = true) :
+    d.pyEq v = true := by
+  unfold PyVal.pyEq at h1 h2 ⊢
+  cases hv : v.numVal <;> cases hc : c.numVal <;> cases hd : d.numVal <;>
+    simp only [hv, hc, hd] at h1 h2 ⊢
+  · have e1 := eq_of_beq h1; have e2 := eq_of_beq h2; subst e1; subst e2; exact beq_self_eq_true _
+  · have e2 := eq_of_beq h2; subst e2; rw [hc] at hd; cases hd
+  · have e1 := eq_of_beq h1; subst e1; rw [hv] at hc; cases hc
+  · have e1 := eq_of_beq h1; subst e1; rw [hv] at hc; cases hc
+  · have e1 := eq_of_beq h1; subst e1; rw [hv] at hc; cases hc
+  · have e1 := eq_of_beq h1; subst e1; rw [hv] at hc; cases hc
+  · have e2 := eq_of_beq h2; subst e2; rw [hc] at hd; cases hd
+  · have e1 := eq_of_beq h1; have e2 := eq_of_beq h2; subst e1; subst e2; exact beq_self_eq_true _
+
+theorem PyVal.eq_none_of_isNone (v : PyVal) (h : v.isNone = true) : v = .none := by
+  cases v <;> first | rfl | cases h
+
+/-- a falsy number (False, 0, 0.0) has numeric value 0 -/
+theorem PyVal.numVal_of_falsy (v : PyVal) (x : Rat) (h : v.numVal = some x) (hf : v.truthy = false) :
+    x = 0 := by
+  cases v with
+  | none => cases h
+  | bool b =>
+    simp only [PyVal.truthy] at hf
+    subst hf
+    simp only [PyVal.numVal, Bool.false_eq_true, if_false, Option.some.injEq] at h
+    exact h.symm
+  | int i =>
+    simp only [PyVal.truthy, bne_eq_false_iff_eq] at hf
+    subst hf
+    simp only [PyVal.numVal, Option.some.injEq] at h
+    rw [← h]; rfl
+  | float q =>
+    simp only [PyVal.truthy, bne_eq_false_iff_eq] at hf
+    subst hf
+    simp only [PyVal.numVal, Option.some.injEq] at h
+    exact h.symm
+  | str s => cases h
+  | list l => cases h
+
+/-- **what a statement omits is the default.**  A condition anchored at `d` does not hold for a
+    value `v` (of a kind the truthiness tests can judge) only if `d == v`. -/
+theorem omitted_eq_default (d v : PyVal) (c : Cond) (ha : c.anchored d = true)
+    (hk : c.kindOK d v = true) (hc : c.holds v = false) : d.pyEq v = true := by
+  cases c with
+  | always => cases hc
+  | truthy =>
+    simp only [Cond.holds] at hc
+    simp only [Cond.anchored, Bool.not_eq_true'] at ha
+    simp only [Cond.kindOK, hc, Bool.false_or] at hk
+    by_cases hd : d.isNone = true
+    · rw [if_pos hd] at hk
+      rw [PyVal.eq_none_of_isNone d hd, PyVal.eq_none_of_isNone v hk]
+      rfl
+    · rw [if_neg hd, Bool.and_eq_true] at hk
+      obtain ⟨h1, h2⟩ := hk
+      obtain ⟨x, hx⟩ := Option.isSome_iff_exists.1 h1
+      obtain ⟨y, hy⟩ := Option.isSome_iff_exists.1 h2
+      have ex := PyVal.numVal_of_falsy d x hx ha
+      have ey := PyVal.numVal_of_falsy v y hy hc
+      unfold PyVal.pyEq
+      simp only [hx, hy, ex, ey]
+      rfl
+  | falsy =>
+    simp only [Cond.holds, Bool.not_eq_false'] at hc
+    simp only [Cond.anchored, beq_iff_eq] at ha
+    simp only [Cond.kindOK, hc, Bool.not_true, Bool.false_or, beq_iff_eq] at hk
+    unfold PyVal.pyEq
+    simp only [ha, hk]
+    rfl
+  | notNone =>
+    simp only [Cond.holds, Bool.not_eq_false'] at hc
+    simp only [Cond.anchored] at ha
+    rw [PyVal.eq_none_of_isNone d ha, PyVal.eq_none_of_isNone v hc]
+    rfl
+  | ne c =>
+    simp only [Cond.holds, Bool.not_eq_false'] at hc
+    simp only [Cond.anchored] at ha
+    exact PyVal.pyEq_chain v c d hc ha
+
+/-- every statement of every `__str__` is anchored at the constructor default of its own class
+    (finite table check against the signatures of `Model/Config.lean`, which the tie compares with
+    `inspect.signature` of the live classes on every run) -/
+theorem anchored_all (c : Cls) :
+    ∀ s ∈ posSpec c ++ kwSpec c, s.cond.anchored (defaultOf c s.name) = true := by
+  have h : ((posSpec c ++ kwSpec c).all fun s => s.cond.anchored (defaultOf c s.name)) = true := by
+    cases c <;> decide +kernel
+  exact fun s hs => List.all_eq_true.1 h s hs
+
+/-- the printed text denotes the value (first half of `semOK`) -/
+def denotesOK (pos : Bool) (s : FlagSpec) (v : PyVal) : Bool :=
+  match s.conv.apply v with
+  | .ok r => !(pos || s.cond.holds v) || r.1.pyEq v
+  | .error _ => true
+
+theorem semOK_split (d : PyVal) (pos : Bool) (s : FlagSpec) (v : PyVal) :
+    semOK d pos s v = (denotesOK pos s v && (s.cond.holds v || d.pyEq v)) := rfl
+
+/-- the conversions that denote the value itself (`str(x)`, quoted, list text) are always right -/
+theorem denotesOK_id (pos : Bool) (s : FlagSpec) (v : PyVal)
+    (h : s.conv = .str ∨ s.conv = .alpha ∨ s.conv = .quoted ∨ s.conv = .intOrList) :
+    denotesOK pos s v = true := by
+  unfold denotesOK
+  rcases h with h | h | h | h <;> simp [h, Conv.apply, PyVal.pyEq_refl]
+
+/-- every printed text of `str(q)` denotes a value `==` the option it prints -/
+def Denotes (q : Q) : Prop :=
+  (∀ s ∈ posSpec q.cls, denotesOK true s (q.get s.name) = true) ∧
+  (∀ s ∈ kwSpec q.cls, denotesOK false s (q.get s.name) = true)
+
+/-- every option tested for truthiness holds a value of a kind that test can judge -/
+def Kinded (q : Q) : Prop :=
+  ∀ s ∈ posSpec q.cls ++ kwSpec q.cls, s.cond.kindOK (defaultOf q.cls s.name) (q.get s.name) = true
+
+instance (q : Q) : Decidable (Denotes q) := by unfold Denotes; infer_instance
+instance (q : Q) : Decidable (Kinded q) := by unfold Kinded; infer_instance
+
+/-- `Typed` no longer needs "omitted ⇒ default" as a hypothesis: it follows from the tables -/
+theorem typed_of_denotes (q : Q) (hd : Denotes q) (hk : Kinded q) : Typed q := by
+  refine ⟨fun s hs => ?_, fun s hs => ?_⟩
+  · rw [semOK_split, hd.1 s hs, Bool.true_and]
+    have hm : s ∈ posSpec q.cls ++ kwSpec q.cls := List.mem_append_left _ hs
+    cases hc : s.cond.holds (q.get s.name) with
+    | true => rfl
+    | false => exact omitted_eq_default _ _ _ (anchored_all q.cls s hm) (hk s hm) hc
+  · rw [semOK_split, hd.2 s hs, Bool.true_and]
+    have hm : s ∈ posSpec q.cls ++ kwSpec q.cls := List.mem_append_right _ hs
+    cases hc : s.cond.holds (q.get s.name) with
+    | true => rfl
+    | false => exact omitted_eq_default _ _ _ (anchored_all q.cls s hm) (hk s hm) hc
 
 /-! ### the tables agree with the constructor signatures -/
 
@@ -379,9 +510,10 @@ theorem forall2_aligned {α β : Type} (R : α → β → Prop) (f : α → Stri
     statements are locally correct (`Typed`), Python's call binding of the values the printed
     flags denote succeeds, and the bound argument of every option `__str__` can express is `==`
     the option the quantizer holds. -/
-theorem flags_bind (q : Q) (fl : List Flag) (hf : flagsF q = .ok fl) (ht : Typed q) :
+theorem flags_bind_full (q : Q) (fl : List Flag) (hf : flagsF q = .ok fl) (ht : Typed q) :
     ∃ e', bind (params q.cls) (posVals fl) (kwVals fl) = .ok e' ∧
-      ∀ k ∈ printedNames q.cls, (e'.get k).pyEq (q.get k) = true := by
+      (∀ k ∈ printedNames q.cls, (e'.get k).pyEq (q.get k) = true) ∧
+      (∀ k ∈ unprinted q.cls, e'.get k = defaultOf q.cls k) := by
   -- the two groups of flags
   unfold flagsF at hf
   cases hp : posFlags q.get (posSpec q.cls) with
@@ -479,7 +611,41 @@ theorem flags_bind (q : Q) (fl : List Flag) (hf : flagsF q = .ok fl) (ht : Typed
           rw [hnames]
           exact (List.take_subset_take_left _ hlen) hm
         simp only [c1, c2, c3, if_false, Bool.false_eq_true, hb]
-      refine ⟨_, hbind, ?_⟩
+      refine ⟨_, hbind, ?_, ?_⟩
+      rotate_left
+      · -- an option no statement mentions: outside the positional prefix, never a printed keyword
+        intro k hk'
+        unfold unprinted at hk'
+        obtain ⟨hkp, hknot⟩ := List.mem_filter.1 hk'
+        have hknot' : k ∉ printedNames q.cls := by simpa using hknot
+        have hk1 : k ∉ (posSpec q.cls).map (·.name) := fun h => hknot' (List.mem_append_left _ h)
+        have hk2 : k ∉ (kwSpec q.cls).map (·.name) := fun h => hknot' (List.mem_append_right _ h)
+        have hprekeys : k ∉ Env.keys pre := by
+          rw [keys_aligned _ _ _ hpre]; exact hk1
+        have hkwnone : (kwVals kfl).lookup k = Option.none := by
+          apply lookup_none_of_not_mem_keys
+          intro hm
+          obtain ⟨s, hs, he⟩ := hkwkeys k hm
+          exact hk2 (he ▸ List.mem_map.2 ⟨s, hs, rfl⟩)
+        have hmem : k ∈ (ps.drop n).map Prod.fst := by
+          rw [List.map_drop, ← hnames]
+          have hsp : k ∈ (paramNames q.cls).take n ++ (paramNames q.cls).drop n := by
+            rw [List.take_append_drop]; exact hkp
+          rcases List.mem_append.1 hsp with h | h
+          · exact absurd (by rw [hT1]; exact h) hk1
+          · exact h
+        obtain ⟨p, hp', hpn⟩ := List.mem_map.1 hmem
+        have hnd : ((ps.drop n).map Prod.fst).Nodup := by
+          rw [List.map_drop, ← hnames]; exact (List.drop_sublist _ _).nodup hT5
+        have hl := get_of_nodup _ hnd p hp'
+        rw [hpn] at hl
+        have hd : defaultOf q.cls k = p.2 := by
+          rw [← hpn]; exact hdef p (List.mem_of_mem_drop hp')
+        rw [hd]
+        unfold Env.get
+        rw [lookup_append_of_not_mem _ _ _ hprekeys, bindPos_nil,
+          lookup_map_snd (ps.drop n) (fun k d => ((kwVals kfl).lookup k).getD d), hl]
+        simp only [Option.map_some, hkwnone, Option.getD_none, Option.getD_some]
       intro k hk'
       unfold printedNames at hk'
       rcases List.mem_append.1 hk' with hk' | hk'
@@ -522,6 +688,19 @@ theorem flags_bind (q : Q) (fl : List Flag) (hf : flagsF q = .ok fl) (ht : Typed
           have := hsem.1
           rw [hr] at this
           simpa [hc] using this
+
+theorem flags_bind (q : Q) (fl : List Flag) (hf : flagsF q = .ok fl) (ht : Typed q) :
+    ∃ e', bind (params q.cls) (posVals fl) (kwVals fl) = .ok e' ∧
+      ∀ k ∈ printedNames q.cls, (e'.get k).pyEq (q.get k) = true := by
+  obtain ⟨e', h1, h2, _⟩ := flags_bind_full q fl hf ht
+  exact ⟨e', h1, h2⟩
+
+/-- every constructor parameter is either expressible by `__str__` or listed as unprinted -/
+theorem param_printed_or_unprinted (c : Cls) (k : String) (hk : k ∈ paramNames c) :
+    k ∈ printedNames c ∨ k ∈ unprinted c := by
+  by_cases h : k ∈ printedNames c
+  · exact Or.inl h
+  · exact Or.inr (List.mem_filter.2 ⟨hk, by simpa using h⟩)
 
 /-! ### the shape of the flag list: positional flags first, keyword flags distinct -/
 
@@ -697,6 +876,24 @@ def readNum (t : List Char) : Option NumLit :=
 
 def splitCommas : List Char → List (List Char) := splitOnChar ','
 
+/-- the items of a blank-separated (numpy-style) list with the number of blanks after each -/
+def readBItems : Nat → List Char → Option (List (NumLit × Nat))
+  | 0, _ => Option.none
+  | _ + 1, [] => some []
+  | fuel + 1, cs =>
+    let tok := cs.takeWhile (· != ' ')
+    let rest := cs.dropWhile (· != ' ')
+    let g := (rest.takeWhile (· == ' ')).length
+    match readNum tok, readBItems fuel (rest.dropWhile (· == ' ')) with
+    | some n, some t => some ((n, g) :: t)
+    | _, _ => Option.none
+
+/-- `[ a  b c ]` without commas: the form `str(numpy.ndarray)` prints -/
+def readBList (r : List Char) : Option Lit :=
+  let inner := r.dropLast
+  let pre := (inner.takeWhile (· == ' ')).length
+  (readBItems (inner.length + 1) (inner.dropWhile (· == ' '))).map (Lit.blist pre)
+
 /-- the literal tree a printed flag text would be the rendering of -/
 def readLit (t : List Char) : Option Lit :=
   if t = "None".toList then some .none
@@ -706,6 +903,8 @@ def readLit (t : List Char) : Option Lit :=
     | '\'' :: r => some (.str false r.dropLast)
     | '[' :: r =>
       if r = [']'] then some (.list [])
+      else if r.contains ',' then ((splitCommas r.dropLast).mapM readNum).map Lit.list
+      else if r.contains ' ' then readBList r
       else ((splitCommas r.dropLast).mapM readNum).map Lit.list
     | _ => (readNum t).map NumLit.toLit
 
@@ -766,6 +965,18 @@ def roundTripHyps (c : Cls) (args : List PyVal) (kw : Env) : Bool :=
      | .ok fl => (readFlags fl).isSome
      | .error _ => false) && decide (Typed q)
 
+/-- the hypotheses of the complete-option-set round trip, decided for `cls(*args, **kw)`:
+    constructible, `str()` does not raise, flags readable, texts denote their values, truthiness
+    tests see flags / numbers / None, and the unprintable options are at their defaults -/
+def completeHyps (c : Cls) (args : List PyVal) (kw : Env) : Bool :=
+  match construct c args kw with
+  | .error _ => false
+  | .ok q =>
+    (match flagsF q with
+     | .ok fl => (readFlags fl).isSome
+     | .error _ => false) && decide (Denotes q) && decide (Kinded q) &&
+    decide (∀ k ∈ unprinted q.cls, (defaultOf q.cls k).pyEq (q.get k) = true)
+
 /-! ### integers print and read back -/
 
 theorem allDigits_toDigits (n : Nat) : allDigits (Nat.toDigits 10 n) = true := by
@@ -812,5 +1023,79 @@ theorem flagLit_int (key : Option String) (hk : ∀ k, key = some k → isIdent 
   | some k =>
     refine ⟨?_, by simp [Arg.text, Flag.chars, argOfFlag, intLit_text], rfl, intLit_val i⟩
     simp [argOfFlag, Arg.rd, hk k rfl, intLit_rd]
+
+/-! ### closed forms for the stochastic classes: the flags of `str(q)` for every integer option -/
+
+/-- the scale option of the stochastic classes: `None`, `"auto"`, `"auto_po2"` -/
+inductive AutoAlpha | none | auto | autoPo2 deriving DecidableEq
+def AutoAlpha.val : AutoAlpha → PyVal
+  | .none => .none | .auto => .str "auto" | .autoPo2 => .str "auto_po2"
+def AutoAlpha.flags : AutoAlpha → List Flag
+  | .none => []
+  | .auto => [⟨some "alpha", .str "auto", "'auto'"⟩]
+  | .autoPo2 => [⟨some "alpha", .str "auto_po2", "'auto_po2'"⟩]
+def AutoAlpha.args : AutoAlpha → List Arg
+  | .none => []
+  | .auto => [.kw "alpha" (.str false "auto".toList)]
+  | .autoPo2 => [.kw "alpha" (.str false "auto_po2".toList)]
+
+theorem AutoAlpha.readable (a : AutoAlpha) : List.Forall₂ FlagLit a.flags a.args := by
+  cases a
+  · exact List.Forall₂.nil
+  · exact List.Forall₂.cons (by decide +kernel) List.Forall₂.nil
+  · exact List.Forall₂.cons (by decide +kernel) List.Forall₂.nil
+
+theorem readable_append {a b : List Flag} {as bs : List Arg} (h1 : List.Forall₂ FlagLit a as)
+    (h2 : List.Forall₂ FlagLit b bs) : List.Forall₂ FlagLit (a ++ b) (as ++ bs) := by
+  induction h1 with
+  | nil => simpa using h2
+  | cons h _ ih => exact List.Forall₂.cons h ih
+
+theorem readable_if (p : Prop) [Decidable p] (f : Flag) (x : Arg) (h : FlagLit f x) :
+    List.Forall₂ FlagLit (if p then [] else [f]) (if p then [] else [x]) := by
+  by_cases hp : p
+  · simp only [hp, if_true]; exact List.Forall₂.nil
+  · simp only [hp, if_false]; exact List.Forall₂.cons h List.Forall₂.nil
+
+theorem cast_ne (t n : Int) (h : t ≠ n) : ((t : Rat) == (n : Rat)) = false := by
+  simp only [beq_eq_false_iff_ne, ne_eq]
+  exact_mod_cast h
+
+theorem flags_bernoulli (sb : Bool) (a : AutoAlpha) (t : Int) (b : Bool) :
+    flagsF ⟨if sb then .stochastic_binary else .bernoulli,
+        [("alpha", a.val), ("temperature", .int t), ("use_real_sigmoid", .bool b)]⟩
+      = .ok (a.flags ++ (if t = 6 then [] else [⟨some "temperature", .int t, toString t⟩]) ++
+          (if b = true then [] else [⟨some "use_real_sigmoid", .int 0, "0"⟩])) := by
+  by_cases ht : t = 6
+  · subst ht
+    cases sb <;> cases a <;> cases b <;> rfl
+  · have hne : ¬ ((t : Rat) = 6) := by exact_mod_cast ht
+    have h0 : Int.repr 0 = "0" := by decide
+    cases sb <;> cases a <;> cases b <;>
+      simp [flagsF, posFlags, kwFlags, posSpec, kwSpec, Q.get, Env.get, List.lookup, Cond.holds, mkFlag,
+        Conv.apply, PyVal.pyEq, PyVal.numVal, PyVal.truthy, PyVal.isNone, alphaText, PyVal.isStr,
+        PyVal.pyStr, PyVal.pyInt, ht, AutoAlpha.val, AutoAlpha.flags, hne, h0]
+
+theorem zeroFlagLit (k : String) (hk : isIdent k = true) :
+    FlagLit ⟨some k, .int 0, "0"⟩ (.kw k (intLit 0)) :=
+  flagLit_int (some k) (fun k' hk' => by cases hk'; exact hk) 0
+
+theorem eq_none_of_pyEq_none (v : PyVal) (h : v.pyEq .none = true) : v = .none := by
+  cases v <;> simp [PyVal.pyEq, PyVal.numVal] at h ⊢
+
+theorem flags_sternary (a : AutoAlpha) (t n : Int) (b : Bool) :
+    flagsF ⟨.stochastic_ternary,
+        [("alpha", a.val), ("threshold", .none), ("temperature", .int t), ("use_real_sigmoid", .bool b),
+         ("number_of_unrolls", .int n)]⟩
+      = .ok (a.flags ++ (if t = 8 then [] else [⟨some "temperature", .int t, toString t⟩]) ++
+          (if b = true then [] else [⟨some "use_real_sigmoid", .int 0, "0"⟩]) ++
+          (if n = 5 then [] else [⟨some "number_of_unrolls", .int n, toString n⟩])) := by
+  have ht : ((t : Rat) = 8) ↔ t = 8 := by exact_mod_cast Iff.rfl
+  have hn : ((n : Rat) = 5) ↔ n = 5 := by exact_mod_cast Iff.rfl
+  by_cases h8 : t = 8 <;> by_cases h5 : n = 5 <;> cases a <;> cases b <;>
+    simp [flagsF, posFlags, kwFlags, posSpec, kwSpec, Q.get, Env.get, List.lookup, Cond.holds, mkFlag,
+      Conv.apply, PyVal.pyEq, PyVal.numVal, PyVal.truthy, PyVal.isNone, alphaText, PyVal.isStr,
+      PyVal.pyStr, AutoAlpha.val, AutoAlpha.flags, ht, hn, h8, h5]
+
 
 end QKV.Py
